@@ -1,10 +1,13 @@
 //go:build verif
 
-// Package congh drives the real ackhandler.sentPacketHandler (application-data space, ECN on or off)
-// with a recording proxy in front of its real congestion controller, for property C20: what the
-// handler reports to the controller (which packet number for a loss / an ECN-CE signal) and how the
-// window, seen through the handler, reacts. A simulated peer acknowledges what a simulated network
-// delivered and counts ECN marks as RFC 9000 section 13.4 says. Times are explicit nanoseconds.
+// Package congh drives the real ackhandler.sentPacketHandler (all three packet number spaces, client or
+// server, ECN on or off) with a recording proxy in front of its real congestion controller, for property
+// C20: what the handler reports to the controller (which packet number for a loss / an ECN-CE signal,
+// which bytes in flight), how the window, seen through the handler, reacts, and that the bytes in flight
+// the handler reports stay equal to what is really outstanding across every reset of its state
+// (MigratedPath, ResetForRetry, 0-RTT rejection, dropped Initial / Handshake spaces, QueueProbePacket).
+// A simulated peer acknowledges what a simulated network delivered and counts ECN marks as RFC 9000
+// section 13.4 says. Times are explicit nanoseconds.
 package congh
 
 import (
@@ -23,9 +26,13 @@ import (
 )
 
 type spkt struct {
+	sp          int // packet number space: 0 Initial, 1 Handshake, 2 application data
 	pn, size, t int64
 	ae          bool
+	zero        bool // sent with 0-RTT keys
 	ecn         protocol.ECN
+	filled      bool // Exec has told the generator the packet number and codepoint
+	void        bool // Exec skipped the send, or the packet's space was reset
 	delivered   bool // the network delivers it
 	ce          bool // … CE-marked
 	counted     bool // the peer has received (and counted) it
@@ -33,67 +40,100 @@ type spkt struct {
 
 type lostRec struct {
 	rn *runner
+	sp int
 	pn int64
 }
 
 func (l *lostRec) OnAcked(wire.Frame) {}
-func (l *lostRec) OnLost(wire.Frame)  { l.rn.lostNow = append(l.rn.lostNow, l.pn) }
+func (l *lostRec) OnLost(wire.Frame)  { l.rn.lostNow = append(l.rn.lostNow, [2]int64{int64(l.sp), l.pn}) }
+
+var spLetter = [3]string{"i", "h", "a"}
 
 type runner struct {
 	h       ackhandler.SentPacketHandler
 	rtt     *utils.RTTStats
 	calls   []string
-	lostNow []int64
+	lostNow [][2]int64
+
+	// facts Exec needs to turn dangling operations into `skip`
+	dropped     [3]bool // Initial / Handshake space dropped
+	zeroDropped bool    // 0-RTT rejected
+	sent1RTT    bool
+	sentHS      bool
+	client      bool
 
 	// generator: simulated network and peer
-	style   int
-	started bool
-	queue   []string
-	now     int64
-	mds     int64
-	ecn     bool
-	baseRTT int64
-	pkts    []*spkt
-	peerIdx int // packets [0,peerIdx) have reached the peer (or were dropped)
-	ect0, ect1, ce int64
-	lastAck string
-	ceBurst int
-	dropP, ceP int
+	style            int
+	started          bool
+	queue            []string
+	now              int64
+	mds              int64
+	ecn              bool
+	baseRTT          int64
+	pkts             []*spkt
+	peerIdx          int // packets [0,peerIdx) have reached the peer (or were dropped)
+	ect0, ect1, ce   int64
+	lastAck          string
+	ceBurst          int
+	dropP, ceP       int
+	retried, sentIni bool
 }
 
-func (rn *runner) mk(mds int64, ecn bool) {
+func (rn *runner) mk(mds int64, ecn, client, confirmed bool, initialPN int64) {
 	rn.rtt = utils.NewRTTStats()
 	rn.rtt.SetMaxAckDelay(25 * time.Millisecond)
-	rn.h = ackhandler.NewSentPacketHandler(0, protocol.ByteCount(mds), rn.rtt, &utils.ConnectionStats{}, true, ecn,
-		func(protocol.PacketNumber) {}, protocol.PerspectiveServer, nil, utils.DefaultLogger)
-	rn.h.DropPackets(protocol.EncryptionInitial, 1)
-	rn.h.DropPackets(protocol.EncryptionHandshake, 1) // handshake confirmed
+	pers := protocol.PerspectiveServer
+	if client {
+		pers = protocol.PerspectiveClient
+	}
+	rn.h = ackhandler.NewSentPacketHandler(protocol.PacketNumber(initialPN), protocol.ByteCount(mds), rn.rtt, &utils.ConnectionStats{}, true, ecn,
+		func(protocol.PacketNumber) {}, pers, nil, utils.DefaultLogger)
+	rn.dropped = [3]bool{}
+	rn.zeroDropped, rn.sent1RTT, rn.sentHS, rn.client = false, false, false, client
+	if confirmed {
+		rn.h.DropPackets(protocol.EncryptionInitial, 1)
+		rn.h.DropPackets(protocol.EncryptionHandshake, 1) // handshake confirmed
+		rn.dropped[0], rn.dropped[1] = true, true
+	}
 	rn.calls = nil
+	rn.lostNow = nil
 	ackhandler.VerifWrapCongestion(rn.h, func(s string) { rn.calls = append(rn.calls, s) })
 }
 
 func newRunner(r *vh.Rand) vh.Runner {
 	rn := &runner{mds: 1252}
-	rn.mk(1252, false)
-	rn.style = r.Pick(35, 30, 20, 15) // steady / CE bursts / lossy / reordered ACKs
+	rn.mk(1252, false, false, true, 0)
+	rn.style = r.Pick(28, 24, 16, 12, 20) // steady / CE bursts / lossy / reordered ACKs / handshake with resets
 	rn.now = 1_000_000 + r.Range(0, 1_000_000_000_000)
 	rn.baseRTT = []int64{200_000, 2_000_000, 20_000_000, 80_000_000}[r.Intn(4)]
-	rn.dropP = []int{0, 1, 8, 2}[rn.style]
-	rn.ceP = []int{2, 4, 3, 3}[rn.style]
+	rn.dropP = []int{0, 1, 8, 2, 3}[rn.style]
+	rn.ceP = []int{2, 4, 3, 3, 2}[rn.style]
 	return rn
 }
 
-func (rn *runner) genSend(r *vh.Rand) string {
+// kind: 0 ordinary, 1 Path MTU probe, 2 path probe
+func (rn *runner) genSendAt(r *vh.Rand, sp int, lvl string, kind int) string {
 	size := rn.mds
 	if r.Chance(20) {
 		size = r.Range(40, rn.mds)
 	}
 	ae := 1
-	if r.Chance(6) {
-		ae = 0
-		size = r.Range(25, 60)
+	switch kind {
+	case 1:
+		size = rn.mds + r.Range(1, 200)
+	case 2:
+		size = r.Range(1200, rn.mds)
+	default:
+		if r.Chance(6) {
+			ae = 0
+			size = r.Range(25, 60)
+		}
 	}
-	p := &spkt{pn: -1, size: size, t: rn.now, ae: ae == 1, delivered: !r.Chance(rn.dropP)}
+	drop := rn.dropP
+	if kind == 1 {
+		drop = 50
+	}
+	p := &spkt{sp: sp, pn: -1, size: size, t: rn.now, ae: ae == 1, zero: lvl == "z", delivered: !r.Chance(drop)}
 	if rn.style == 1 && rn.ceBurst == 0 && r.Chance(6) {
 		rn.ceBurst = int(r.Range(3, 25))
 	}
@@ -104,29 +144,50 @@ func (rn *runner) genSend(r *vh.Rand) string {
 		p.ce = r.Chance(rn.ceP)
 	}
 	rn.pkts = append(rn.pkts, p) // pn and codepoint are filled in by Exec
-	return fmt.Sprintf("send %d %d %d", rn.now, size, ae)
+	return fmt.Sprintf("send %s %d %d %d %d", lvl, rn.now, size, ae, kind)
+}
+
+func (rn *runner) genSend(r *vh.Rand) string {
+	kind := 0
+	switch {
+	case r.Chance(3):
+		kind = 1
+	case r.Chance(2):
+		kind = 2
+	}
+	return rn.genSendAt(r, 2, "a", kind)
 }
 
 // the peer receives everything sent at least half an RTT ago (in send order, minus drops), then
-// acknowledges: all received packet numbers as ranges (the most recent 32 ranges), cumulative ECN counts.
+// acknowledges in one packet number space: all received packet numbers as ranges (the most recent 32
+// ranges), cumulative ECN counts.
 func (rn *runner) genAck(r *vh.Rand, stale bool) string {
 	if stale && rn.lastAck != "" {
 		f := strings.Fields(rn.lastAck)
-		f[1] = fmt.Sprint(rn.now)
-		return strings.Join(f, " ")
+		if sp := strings.Index("iha", f[1]); sp >= 0 && !rn.dropped[sp] {
+			f[2] = fmt.Sprint(rn.now)
+			return strings.Join(f, " ")
+		}
 	}
 	adv := 0
+	sp := -1
 	for rn.peerIdx < len(rn.pkts) && (adv == 0 || r.Chance(55)) {
 		p := rn.pkts[rn.peerIdx]
-		if p.pn < 0 {
+		if !p.filled && !p.void {
 			break
 		}
 		rn.peerIdx++
+		if p.void {
+			continue
+		}
 		adv++
 		if !p.delivered {
 			continue
 		}
 		p.counted = true
+		if !rn.dropped[p.sp] {
+			sp = p.sp
+		}
 		switch {
 		case p.ecn == protocol.ECT0 && p.ce, p.ecn == protocol.ECT1 && p.ce:
 			rn.ce++
@@ -139,14 +200,22 @@ func (rn *runner) genAck(r *vh.Rand, stale bool) string {
 			rn.now = arrive
 		}
 	}
+	if sp < 0 {
+		for _, c := range []int{2, 1, 0} {
+			if !rn.dropped[c] {
+				sp = c
+				break
+			}
+		}
+	}
 	var pns []int64
 	for _, p := range rn.pkts[:rn.peerIdx] {
-		if p.counted {
+		if p.counted && !p.void && p.sp == sp {
 			pns = append(pns, p.pn)
 		}
 	}
 	if len(pns) == 0 {
-		return rn.genSend(r)
+		return rn.genAnySend(r)
 	}
 	sort.Slice(pns, func(i, j int) bool { return pns[i] < pns[j] })
 	var ranges []string
@@ -169,12 +238,97 @@ func (rn *runner) genAck(r *vh.Rand, stale bool) string {
 		delay = r.Range(0, 25_000_000)
 	}
 	e0, e1, ce := rn.ect0, rn.ect1, rn.ce
-	if r.Chance(2) { // a peer that does not report ECN counts / a bleaching path
+	if r.Chance(2) || sp != 2 { // a peer that does not report ECN counts / a bleaching path / a long-header ACK
 		e0, e1, ce = 0, 0, 0
 	}
-	op := fmt.Sprintf("ack %d %d %d %d %d r=%s", rn.now, delay, e0, e1, ce, strings.Join(ranges, ";"))
+	op := fmt.Sprintf("ack %s %d %d %d %d %d r=%s", spLetter[sp], rn.now, delay, e0, e1, ce, strings.Join(ranges, ";"))
 	rn.lastAck = op
 	return op
+}
+
+func (rn *runner) genTimeout(r *vh.Rand) string {
+	if t := int64(rn.h.GetLossDetectionTimeout()); t != 0 {
+		if t > rn.now {
+			rn.now = t
+		}
+		if r.Chance(30) {
+			rn.now += r.Range(0, 3_000_000)
+		}
+		return fmt.Sprintf("timeout %d", rn.now)
+	}
+	return rn.genAck(r, false)
+}
+
+func (rn *runner) voidSpace(sp int, only0RTT bool) {
+	for _, p := range rn.pkts {
+		if p.sp == sp && (!only0RTT || p.zero) {
+			p.void = true
+		}
+	}
+}
+
+func (rn *runner) genAnySend(r *vh.Rand) string {
+	if rn.dropped[0] && rn.dropped[1] {
+		return rn.genSend(r)
+	}
+	return rn.genHandshakeSend(r)
+}
+
+// handshake phase: Initial, Handshake, 0-RTT (a client before its first 1-RTT packet) and 1-RTT packets
+func (rn *runner) genHandshakeSend(r *vh.Rand) string {
+	if r.Chance(25) {
+		rn.now += r.Range(0, 500_000)
+	}
+	switch {
+	case !rn.dropped[0] && r.Chance(45):
+		rn.sentIni = true
+		return rn.genSendAt(r, 0, "i", 0)
+	case rn.client && !rn.sent1RTT && !rn.zeroDropped && r.Chance(60):
+		return rn.genSendAt(r, 2, "z", 0)
+	case !rn.dropped[1] && (!rn.client || rn.dropped[0] || r.Chance(8)) && r.Chance(50):
+		return rn.genSendAt(r, 1, "h", 0)
+	default:
+		return rn.genSendAt(r, 2, "a", 0)
+	}
+}
+
+func (rn *runner) genHandshake(r *vh.Rand) string {
+	switch r.Pick(50, 24, 5, 6, 3, 12) {
+	case 0:
+		return rn.genHandshakeSend(r)
+	case 1:
+		return rn.genAck(r, false)
+	case 2:
+		return rn.genTimeout(r)
+	case 3:
+		var live []int
+		for sp := 0; sp < 3; sp++ {
+			if !rn.dropped[sp] {
+				live = append(live, sp)
+			}
+		}
+		return "qprobe " + spLetter[live[r.Intn(len(live))]]
+	case 4:
+		return fmt.Sprintf("mode %d", rn.now)
+	default:
+		switch {
+		case rn.client && !rn.retried && !rn.sentHS && !rn.sent1RTT && rn.sentIni && !rn.dropped[0] && r.Chance(70):
+			rn.retried = true
+			rn.voidSpace(0, false)
+			rn.voidSpace(2, false)
+			rn.now += rn.baseRTT
+			return fmt.Sprintf("retry %d", rn.now)
+		case rn.client && !rn.zeroDropped && r.Chance(40):
+			rn.voidSpace(2, true)
+			return fmt.Sprintf("drop z %d", rn.now)
+		case !rn.dropped[0]:
+			rn.voidSpace(0, false)
+			return fmt.Sprintf("drop i %d", rn.now)
+		default:
+			rn.voidSpace(1, false)
+			return fmt.Sprintf("drop h %d", rn.now)
+		}
+	}
 }
 
 func (rn *runner) GenOp(r *vh.Rand, i int) string {
@@ -187,17 +341,30 @@ func (rn *runner) GenOp(r *vh.Rand, i int) string {
 		rn.started = true
 		rn.mds = []int64{1200, 1252, 1280, 1452, r.Range(1200, 1500)}[r.Intn(5)]
 		rn.ecn = !r.Chance(15)
-		e := 0
+		e, c, conf := 0, 0, 1
+		ipn := int64(0) // a uQUIC spec may start the Initial packet number space anywhere
 		if rn.ecn {
 			e = 1
 		}
-		return fmt.Sprintf("init %d %d", rn.mds, e)
+		if rn.style == 4 {
+			conf = 0
+			if r.Chance(60) {
+				c = 1
+			}
+			if r.Chance(25) {
+				ipn = []int64{1, 300, 70000, r.Range(2, 1<<31)}[r.Intn(4)]
+			}
+		}
+		return fmt.Sprintf("init %d %d %d %d %d", rn.mds, e, c, conf, ipn)
+	}
+	if !rn.dropped[0] || !rn.dropped[1] {
+		return rn.genHandshake(r)
 	}
 	wSend, wAck := 60, 30
 	if len(rn.pkts)-rn.peerIdx > 40 {
 		wSend, wAck = 20, 70
 	}
-	switch r.Pick(wSend, wAck, 4, 1, 2) {
+	switch r.Pick(wSend, wAck, 4, 1, 2, 2, 3) {
 	case 0:
 		switch rn.h.SendMode(monotime.Time(rn.now)) {
 		case ackhandler.SendAny:
@@ -213,7 +380,10 @@ func (rn *runner) GenOp(r *vh.Rand, i int) string {
 			}
 			return rn.genSend(r)
 		case ackhandler.SendPTOAppData:
-			return rn.genSend(r) // a probe packet
+			if r.Chance(25) {
+				return "qprobe a"
+			}
+			return rn.genSendAt(r, 2, "a", 0) // a probe packet
 		default: // congestion limited
 			if r.Chance(10) {
 				return rn.genSend(r)
@@ -223,16 +393,7 @@ func (rn *runner) GenOp(r *vh.Rand, i int) string {
 	case 1:
 		return rn.genAck(r, rn.style == 3 && r.Chance(25))
 	case 2:
-		if t := int64(rn.h.GetLossDetectionTimeout()); t != 0 {
-			if t > rn.now {
-				rn.now = t
-			}
-			if r.Chance(30) {
-				rn.now += r.Range(0, 3_000_000)
-			}
-			return fmt.Sprintf("timeout %d", rn.now)
-		}
-		return rn.genAck(r, false)
+		return rn.genTimeout(r)
 	case 3:
 		if rn.mds < 1452 {
 			rn.mds = 1452
@@ -240,9 +401,31 @@ func (rn *runner) GenOp(r *vh.Rand, i int) string {
 			rn.mds += r.Range(0, 60)
 		}
 		return fmt.Sprintf("mds %d", rn.mds)
-	default:
+	case 4:
 		rn.now += r.Range(0, 3*rn.baseRTT)
 		return rn.genAck(r, false)
+	case 5:
+		if !r.Chance(40) {
+			return rn.genAck(r, false)
+		}
+		// a path migration, in most cases with a Path MTU probe and / or path probes still outstanding
+		var ops []string
+		if r.Chance(60) {
+			ops = append(ops, rn.genSendAt(r, 2, "a", 1))
+		}
+		for r.Chance(40) && len(ops) < 4 {
+			ops = append(ops, rn.genSendAt(r, 2, "a", 2))
+		}
+		if r.Chance(30) {
+			ops = append(ops, rn.genSendAt(r, 2, "a", 0))
+		}
+		rn.now += r.Range(0, rn.baseRTT)
+		rn.mds = []int64{1200, 1252, 1280, rn.mds}[r.Intn(4)]
+		ops = append(ops, fmt.Sprintf("migrate %d %d", rn.now, rn.mds), fmt.Sprintf("mode %d", rn.now))
+		rn.queue = ops[1:]
+		return ops[0]
+	default:
+		return fmt.Sprintf("mode %d", rn.now)
 	}
 }
 
@@ -253,7 +436,27 @@ func b2s(b bool) string {
 	return "0"
 }
 
-func joinInts(xs []int64) string {
+func joinKeys(xs [][2]int64) string {
+	if len(xs) == 0 {
+		return "-"
+	}
+	sort.Slice(xs, func(i, j int) bool {
+		if xs[i][0] != xs[j][0] {
+			return xs[i][0] < xs[j][0]
+		}
+		return xs[i][1] < xs[j][1]
+	})
+	var sb strings.Builder
+	for i, x := range xs {
+		if i > 0 {
+			sb.WriteByte(';')
+		}
+		fmt.Fprintf(&sb, "%s%d", spLetter[x[0]], x[1])
+	}
+	return sb.String()
+}
+
+func joinPNs(xs []protocol.PacketNumber) string {
 	if len(xs) == 0 {
 		return "-"
 	}
@@ -262,7 +465,7 @@ func joinInts(xs []int64) string {
 		if i > 0 {
 			sb.WriteByte(';')
 		}
-		fmt.Fprintf(&sb, "%d", x)
+		fmt.Fprintf(&sb, "%d", int64(x))
 	}
 	return sb.String()
 }
@@ -273,12 +476,15 @@ func (rn *runner) suffix() string {
 	if len(rn.calls) > 0 {
 		calls = strings.Join(rn.calls, ",")
 	}
-	var trk []int64
-	for _, p := range ackhandler.VerifTrackedApp(rn.h) {
-		trk = append(trk, int64(p))
+	trk, pp, ph := ackhandler.VerifTrackedAll(rn.h)
+	var keys [][2]int64
+	for sp := range trk {
+		for _, pn := range trk[sp] {
+			keys = append(keys, [2]int64{int64(sp), int64(pn)})
+		}
 	}
-	s := fmt.Sprintf(" | w=%d bif=%d ss=%s calls=%s lost=%s trk=%s r=%d,%d,%d", int64(w), int64(bfl), b2s(ss), calls,
-		joinInts(rn.lostNow), joinInts(trk), int64(rn.rtt.LatestRTT()), int64(rn.rtt.MinRTT()), int64(rn.rtt.SmoothedRTT()))
+	s := fmt.Sprintf(" | w=%d bif=%d ss=%s calls=%s lost=%s trk=%s pp=%s ph=%s r=%d,%d,%d", int64(w), int64(bfl), b2s(ss), calls,
+		joinKeys(rn.lostNow), joinKeys(keys), joinPNs(pp), joinPNs(ph), int64(rn.rtt.LatestRTT()), int64(rn.rtt.MinRTT()), int64(rn.rtt.SmoothedRTT()))
 	rn.calls = nil
 	rn.lostNow = nil
 	return s
@@ -299,6 +505,36 @@ func parseRanges(s string) []wire.AckRange {
 	return out
 }
 
+var modeNames = map[ackhandler.SendMode]string{
+	ackhandler.SendNone: "none", ackhandler.SendAck: "ack", ackhandler.SendPTOInitial: "pto-initial",
+	ackhandler.SendPTOHandshake: "pto-handshake", ackhandler.SendPTOAppData: "pto-appdata",
+	ackhandler.SendPacingLimited: "pacing", ackhandler.SendAny: "any",
+}
+
+// level letter -> packet number space, encryption level
+func level(l string) (int, protocol.EncryptionLevel, bool) {
+	switch l {
+	case "i":
+		return 0, protocol.EncryptionInitial, true
+	case "h":
+		return 1, protocol.EncryptionHandshake, true
+	case "z":
+		return 2, protocol.Encryption0RTT, true
+	case "a":
+		return 2, protocol.Encryption1RTT, true
+	}
+	return 0, 0, false
+}
+
+func (rn *runner) skipSend() {
+	for _, p := range rn.pkts {
+		if !p.filled && !p.void {
+			p.void = true
+			break
+		}
+	}
+}
+
 func (rn *runner) Exec(op string) string {
 	f := strings.Fields(op)
 	a := func(i int) int64 {
@@ -307,38 +543,59 @@ func (rn *runner) Exec(op string) string {
 		}
 		return 0
 	}
+	s := func(i int) string {
+		if i < len(f) {
+			return f[i]
+		}
+		return ""
+	}
 	res := "bad-op"
 	switch f[0] {
 	case "init":
-		rn.mk(a(1), a(2) == 1)
+		rn.mk(a(1), a(2) == 1, a(3) == 1, a(4) == 1, max(a(5), 0))
 		res = "ok"
 	case "send":
-		pn := rn.h.PopPacketNumber(protocol.Encryption1RTT)
-		ecn := rn.h.ECNMode(true)
-		var frames []ackhandler.Frame
-		if a(3) == 1 {
-			frames = []ackhandler.Frame{{Frame: &wire.PingFrame{}, Handler: &lostRec{rn: rn, pn: int64(pn)}}}
+		sp, enc, ok := level(s(1))
+		kind := a(5)
+		if !ok || rn.dropped[sp] || (s(1) == "z" && (rn.sent1RTT || rn.zeroDropped)) || (kind != 0 && s(1) != "a") || (kind == 2 && a(4) != 1) {
+			rn.skipSend()
+			res = "skip"
+			break
 		}
-		rn.h.SentPacket(monotime.Time(a(1)), pn, protocol.InvalidPacketNumber, nil, frames, protocol.Encryption1RTT, ecn, protocol.ByteCount(a(2)), false, false)
+		pn := rn.h.PopPacketNumber(enc)
+		ecn := rn.h.ECNMode(enc == protocol.Encryption1RTT)
+		var frames []ackhandler.Frame
+		if a(4) == 1 {
+			frames = []ackhandler.Frame{{Frame: &wire.PingFrame{}, Handler: &lostRec{rn: rn, sp: sp, pn: int64(pn)}}}
+		}
+		rn.h.SentPacket(monotime.Time(a(2)), pn, protocol.InvalidPacketNumber, nil, frames, enc, ecn, protocol.ByteCount(a(3)), kind == 1, kind == 2)
+		switch s(1) {
+		case "a":
+			rn.sent1RTT = true
+		case "h":
+			rn.sentHS = true
+		}
 		// tell the generator which number and codepoint the packet got
 		for _, p := range rn.pkts {
-			if p.pn < 0 {
-				p.pn, p.ecn = int64(pn), ecn
+			if !p.filled && !p.void {
+				p.pn, p.ecn, p.filled = int64(pn), ecn, true
 				break
 			}
 		}
 		res = fmt.Sprintf("pn=%d e=%d", int64(pn), int(ecn))
 	case "ack":
-		if len(f) < 7 {
+		sp, enc, ok := level(s(1))
+		if len(f) < 8 || !ok || s(1) == "z" || rn.dropped[sp] {
+			res = "skip"
 			break
 		}
-		rs := parseRanges(f[6])
+		rs := parseRanges(f[7])
 		if len(rs) == 0 {
-			res = "err"
+			res = "skip"
 			break
 		}
-		_, err := rn.h.ReceivedAck(&wire.AckFrame{AckRanges: rs, DelayTime: time.Duration(a(2)), ECT0: uint64(a(3)), ECT1: uint64(a(4)), ECNCE: uint64(a(5))},
-			protocol.Encryption1RTT, monotime.Time(a(1)))
+		_, err := rn.h.ReceivedAck(&wire.AckFrame{AckRanges: rs, DelayTime: time.Duration(a(3)), ECT0: uint64(a(4)), ECT1: uint64(a(5)), ECNCE: uint64(a(6))},
+			enc, monotime.Time(a(2)))
 		if err != nil {
 			res = "err"
 		} else {
@@ -358,6 +615,44 @@ func (rn *runner) Exec(op string) string {
 	case "mds":
 		rn.h.SetMaxDatagramSize(protocol.ByteCount(a(1)))
 		res = "ok"
+	case "migrate":
+		if a(2) <= 0 {
+			res = "skip"
+			break
+		}
+		rn.h.MigratedPath(monotime.Time(a(1)), protocol.ByteCount(a(2)))
+		ackhandler.VerifWrapCongestion(rn.h, func(s string) { rn.calls = append(rn.calls, s) })
+		res = "ok"
+	case "drop":
+		sp, enc, ok := level(s(1))
+		if !ok || s(1) == "a" || (s(1) != "z" && rn.dropped[sp]) || (s(1) == "z" && rn.zeroDropped) {
+			res = "skip"
+			break
+		}
+		rn.h.DropPackets(enc, monotime.Time(a(2)))
+		if s(1) == "z" {
+			rn.zeroDropped = true
+		} else {
+			rn.dropped[sp] = true
+		}
+		res = "ok"
+	case "retry":
+		// a Retry is only processed before any Handshake or 1-RTT packet was sent
+		if rn.dropped[0] || rn.sentHS || rn.sent1RTT {
+			res = "skip"
+			break
+		}
+		rn.h.ResetForRetry(monotime.Time(a(1)))
+		res = "ok"
+	case "qprobe":
+		sp, enc, ok := level(s(1))
+		if !ok || s(1) == "z" || rn.dropped[sp] {
+			res = "skip"
+			break
+		}
+		res = b2s(rn.h.QueueProbePacket(enc))
+	case "mode":
+		res = modeNames[rn.h.SendMode(monotime.Time(a(1)))]
 	}
 	return res + rn.suffix()
 }
